@@ -22,7 +22,7 @@ LEVEL_TEXT = (
     "Lean theorems over an arbitrary field with involution: for every expression tree (any depth) built from "
     "MatrixOperator / Diagonal (broadcasting, block) / ScaledIdentity / Identity / generic LinearOperator / "
     "non-linear Operator leaves with +, -, unary -, scalar * and /, @, call-composition, .T, .H, .conj(), gram_op, and "
-    "VerticalStack / DiagonalStack of any number of such expressions, freeze / Function.slice / Function.join, "
+    "VerticalStack / DiagonalStack of any number of such expressions, freeze / Function.slice / Function.join, DiagonalReplicated (block formula H(x)_k = A(x_k)), "
     "what scico constructs (generic closures and every closed-form override, for every class pair in both orders) "
     "evaluates to the dense matrix obtained by the same construction on the operands' matrices; rejection is "
     "characterised.  The model is tied to the code by an exhaustive class-pair table and random trees."
@@ -30,7 +30,7 @@ LEVEL_TEXT = (
 LEVEL_NOTE = (
     "Trusted: Lean kernel + Mathlib (axioms propext, Classical.choice, Quot.sound); jax.linear_transpose contract "
     "(automatic adjoints are the (conjugate) transpose of the dense matrix of the closure); real-number idealisation. "
-    "Outside the theorems: CircularConvolve/Convolve overrides, DiagonalReplicated (oracle only), trees in which a real part is taken (real->complex operators; covered by the executable model and the tie)."
+    "Outside the theorems: CircularConvolve/Convolve overrides (oracle only), trees in which a real part is taken (real->complex operators; covered by the executable model and the tie)."
 )
 PROP_MODULES = ["Scico.Props.C05"]
 EXTRA_TARGETS = ["Drv.OpAlg"]
@@ -276,9 +276,11 @@ def correspond(ctx, model):
             if bad >= 8:
                 break
     # stacks with a Lean model (vstack / dstack of random expressions)
-    S.model_tie(ctx, env, model, ctx.n(40, 1200))
+    S.model_tie(ctx, env, model, ctx.n(30, 1200))
     # freeze / Function.slice / Function.join with the Lean model
-    S.freeze_tie(ctx, env, model, ctx.n(60, 1500))
+    S.freeze_tie(ctx, env, model, ctx.n(40, 1500))
+    # DiagonalReplicated with the Lean model
+    S.drep_tie(ctx, env, model, ctx.n(30, 1200))
     # histories: the same operator objects used first inside jit, then eagerly
     jit_history(ctx, env)
     # random trees
